@@ -22,7 +22,7 @@ Definition node_of_pre (n : tnode) : node :=
   match t_kind n with
   | TDir => NDir (t_mode n)
   | TReg => NFile (t_sum n) (t_mode n) None (negb (N.eqb (t_sum n) 1))
-  | TSym => NSym (t_sum n) None
+  | TSym => NSym (t_sum n) None (t_link n)
   | TOther => NOther
   end.
 Definition init_of (pre : list tnode) : fsmap := List.map (fun n => (t_path n, node_of_pre n)) pre.
@@ -31,7 +31,7 @@ Definition node_matches (nd : node) (n : tnode) : bool :=
   match nd, t_kind n with
   | NDir m, TDir => N.eqb m (t_mode n)
   | NFile sm md _ _, TReg => N.eqb sm (t_sum n) && N.eqb md (t_mode n)
-  | NSym tg _, TSym => N.eqb tg (t_sum n)
+  | NSym tg _ _, TSym => N.eqb tg (t_sum n)
   | NOther, TOther => true
   | _, _ => false
   end.
@@ -66,7 +66,10 @@ Definition H (p : path) (k : kind) (m u g sm : N) (l : path) : hdr :=
 Definition P (n o : string) (r : list string) (f : list hdr) : pkg :=
   {| p_name := n; p_origin := o; p_replaces := r; p_files := f |}.
 Definition T (p : path) (k : tkind) (sm m : N) (u g : Z) : tnode :=
-  {| t_path := p; t_kind := k; t_sum := sm; t_mode := m; t_uid := u; t_gid := g |}.
+  {| t_path := p; t_kind := k; t_sum := sm; t_mode := m; t_uid := u; t_gid := g; t_link := [] |}.
+(* a symbolic link with its target string split at "/" *)
+Definition TL (p : path) (sm m : N) (u g : Z) (l : path) : tnode :=
+  {| t_path := p; t_kind := TSym; t_sum := sm; t_mode := m; t_uid := u; t_gid := g; t_link := l |}.
 Definition D (p : path) (d : bool) (u g pm : N) (sm : option N) : dbent :=
   {| d_path := p; d_dir := d; d_uid := u; d_gid := g; d_perm := pm; d_sum := sm |}.
 Definition DP (n : string) (e : list dbent) : dbpkg := {| dp_name := n; dp_entries := e |}.
@@ -76,9 +79,9 @@ Definition class_of (e : ierr) : eclass := match e with EConflict _ => EConflict
 (* ---- where the rule table is the whole story ------------------------------
    Cases in which nothing but the rules can decide the outcome: every header's
    ancestors exist (before the install, or as directory headers earlier in the
-   same package), no path is shipped twice by one package, no path is shipped
-   with two different kinds, nothing shipped as a file or link exists
-   beforehand, no path runs through a shipped symbolic link, hard links point at
+   same package), no path is shipped twice by one package, nothing shipped as a
+   file or link exists beforehand (one path shipped with different KINDS by two
+   packages IS judged: a kind clash is never "identical content"), no path runs through a shipped symbolic link, hard links point at
    a regular file shipped earlier by the same package and their own path is
    shipped by nobody else (the property does not speak about hard links). *)
 Definition all_hdrs (pkgs : list pkg) : list hdr := flat_map p_files pkgs.
@@ -102,7 +105,6 @@ Fixpoint pkg_wellformed (pre : list tnode) (seen : list hdr) (hs : list hdr) : b
 Definition rule_envelope (c : case) : bool :=
   let hs := all_hdrs (c_pkgs c) in
   forallb (fun pk => pkg_wellformed (c_pre c) [] (p_files pk)) (c_pkgs c) &&
-  forallb (fun h => forallb (fun x => negb (path_eqb (h_path x) (h_path h)) || kind_eqb (h_kind x) (h_kind h)) hs) hs &&
   forallb (fun h => match h_kind h with
                     | KLink => Nat.eqb (List.length (filter (fun x => path_eqb (h_path x) (h_path h)) hs)) 1
                     | KSym => negb (existsb (fun x => is_prefix_path (h_path h) (h_path x) && negb (path_eqb (h_path h) (h_path x))) hs)
@@ -129,7 +131,7 @@ Fixpoint stanzas_line_up (pkgs : list pkg) (db : list dbpkg) : bool :=
   end.
 
 Definition check_model (c : case) : list string :=
-  match install (c_backend c) (c_pkgs c) (init_of (c_pre c)) with
+  match install_l (c_backend c) (c_pkgs c) (init_of (c_pre c)) with
   | RFail EUnsupported _ => ["mismatch:model-declines-case"]
   | RFail e s =>
       tag_if (negb (eclass_eqb (class_of e) (o_err c))) "mismatch:error-class" ++
@@ -147,20 +149,21 @@ Definition check_model (c : case) : list string :=
   end.
 
 Definition check_observed (c : case) : list string :=
+  nodup string_dec (
   tag_if (negb (o_db_parsed c)) "viol:installed-db-unreadable" ++
   (if rule_envelope c then check_rules (c_backend c) (c_pkgs c) (o_err c) (o_tree c) else []) ++
   (if eclass_eqb (o_err c) ENoError && o_db_parsed c then
-     nodup string_dec (check_db_entries (c_pre c) (o_tree c) (first_mode c) (o_db c)) ++
+     nodup string_dec (check_db_entries (c_backend c) (c_pre c) (o_tree c) (first_mode c) (o_db c)) ++
      (if stanzas_line_up (c_pkgs c) (o_db c) then check_once_all (c_pkgs c) (o_db c) (o_tree c)
       else ["viol:db-stanza-per-package"])
    else []) ++
   (* a conflict must leave the path it names as it was: still a file or link *)
   match o_err c, o_conflict c with
   | EConflictClass, Some p =>
-      tag_if (match tree_get (o_tree c) p with
+      tag_if (match tree_lookup (o_tree c) p with
               | Some n => negb (tkind_eqb (t_kind n) TReg || tkind_eqb (t_kind n) TSym)
               | None => true end) "viol:conflict-path-not-a-file"
   | _, _ => []
-  end.
+  end).
 
 Definition check_case (c : case) : list string := check_model c ++ check_observed c.
